@@ -16,6 +16,8 @@ type (
 		limitConfigLock       sync.RWMutex
 		connLimiter           *connLimiter
 		connLimiterLock       sync.RWMutex
+		connHolders           map[interface{}]struct{}
+		connHoldersLock       sync.Mutex
 		totalQPSLimiter       *qpsLimiter
 		totalQPSLimiterLock   sync.RWMutex
 		handlerQPSLimiter     map[string]*qpsLimiter
@@ -46,6 +48,7 @@ var (
 // New creates a plug-in to protect erpc from overload.
 func New(initLimitConfig LimitConfig) *Overloader {
 	o := &Overloader{
+		connHolders:       make(map[interface{}]struct{}),
 		handlerQPSLimiter: make(map[string]*qpsLimiter),
 	}
 	o.Update(initLimitConfig)
@@ -68,8 +71,11 @@ func (o *Overloader) PostDial(sess erpc.PreSession, isRedial bool) *erpc.Status 
 
 // PostAccept checks connection overload.
 // If overload, print error log and close the connection.
-func (o *Overloader) PostAccept(_ erpc.PreSession) *erpc.Status {
+func (o *Overloader) PostAccept(sess erpc.PreSession) *erpc.Status {
 	if o.takeConn() {
+		o.connHoldersLock.Lock()
+		o.connHolders[sess] = struct{}{}
+		o.connHoldersLock.Unlock()
 		return nil
 	}
 	msg := fmt.Sprintf("connection overload, limit=%d, now=%d",
@@ -79,8 +85,16 @@ func (o *Overloader) PostAccept(_ erpc.PreSession) *erpc.Status {
 }
 
 // PostDisconnect releases connection count.
-func (o *Overloader) PostDisconnect(_ erpc.BaseSession) *erpc.Status {
-	o.releaseConn()
+// A session that was rejected by PostAccept is closed as well and gets here,
+// but it holds no count, so nothing is released for it.
+func (o *Overloader) PostDisconnect(sess erpc.BaseSession) *erpc.Status {
+	o.connHoldersLock.Lock()
+	_, held := o.connHolders[sess]
+	delete(o.connHolders, sess)
+	o.connHoldersLock.Unlock()
+	if held {
+		o.releaseConn()
+	}
 	return nil
 }
 
